@@ -24,7 +24,8 @@ const c03MaxExtra = 1<<33 - 1
 type c03Closed struct {
 	lo, hi uintptr
 	data   []byte
-	step   int // scheduler step during which the mapping was closed
+	step   int               // scheduler step during which the mapping was closed
+	reg    map[*Counter]bool // counters that were on their file's list when the mapping was closed
 }
 
 // c03Env is the per-case environment shared with C04/C05 style harnesses.
@@ -32,7 +33,8 @@ type c03Env struct {
 	dir      string
 	poison   bool
 	closed   []c03Closed
-	stepNow  int // current scheduler step (set by the schedule runner)
+	stepNow  int     // current scheduler step (set by the schedule runner)
+	files    []*file // files whose counter lists are recorded when a mapping is closed
 	oldUnmap func(*mmap.Data) error
 }
 
@@ -48,7 +50,15 @@ func c03Setup(base string, seq int, poison bool) *c03Env {
 			return nil
 		}
 		full := d.Data[:cap(d.Data)]
-		e.closed = append(e.closed, c03Closed{uintptr(unsafePointer(full)), uintptr(unsafePointer(full)) + uintptr(len(full)), full, e.stepNow})
+		reg := map[*Counter]bool{}
+		for _, f := range e.files {
+			if head := f.counters.Load(); head != nil {
+				for c := head; c != nil && c != &f.end; c = c.next.Load() {
+					reg[c] = true
+				}
+			}
+		}
+		e.closed = append(e.closed, c03Closed{uintptr(unsafePointer(full)), uintptr(unsafePointer(full)) + uintptr(len(full)), full, e.stepNow, reg})
 		if e.poison {
 			// keep the address range reserved but make every access fault: a use after unmap
 			// becomes deterministic instead of sometimes hitting a recycled mapping
@@ -78,6 +88,16 @@ func (e *c03Env) teardown(files ...*file) {
 
 func (e *c03Env) inClosed(addr uintptr) bool {
 	return e.closedAt(addr) >= 0
+}
+
+// closedEntry returns the record of the closed mapping containing addr, or nil.
+func (e *c03Env) closedEntry(addr uintptr) *c03Closed {
+	for i := range e.closed {
+		if addr >= e.closed[i].lo && addr < e.closed[i].hi {
+			return &e.closed[i]
+		}
+	}
+	return nil
 }
 
 // closedAt returns the scheduler step at which the mapping containing addr was closed, or -1.
